@@ -14,7 +14,7 @@ git -C $W checkout -q -- . ; git -C $W clean -qfd -e target
 patch=${1:?patch or --none}; out=${2:-/tmp/mw/out}; mkdir -p "$out"
 if [ "$patch" != "--none" ]; then git -C $W apply "$(readlink -f "$patch")" || { echo "patch does not apply"; exit 97; }; fi
 cd $W
-export RUSTC_WRAPPER= CARGO_NET_OFFLINE=true
+export RUSTC_WRAPPER= CARGO_NET_OFFLINE=true CARGO_PROFILE_DEV_DEBUG=0 CARGO_PROFILE_TEST_DEBUG=0 CARGO_INCREMENTAL=0
 cargo test --workspace --no-fail-fast --offline >"$out/cargo-test.log" 2>&1
 python3 /w/lib/parse_tests.py --kind cargo --log "$out/cargo-test.log" --out "$out/run.json" >/dev/null 2>&1
 python3 - "$out/run.json" <<'PY'
